@@ -29,6 +29,7 @@ func init() {
 			}},
 			{"C17/stream-ends", "when the packet loop ends (capability mismatch included) the client-facing connections are closed on every exit (C11's transport rule)", func(c *Ctx) { c11ClientTransportsAs(c, "C17/stream-ends") }},
 			{"C17/response-sent", "Tunnel.Write hands the packet to the transport before it returns, so the refusal is on the wire before the tunnel is closed", func(c *Ctx) { tunnelWriteSync(c, "C17/response-sent") }},
+			{"C17/response-fields", "handshakeResponse puts each parameter in its own field: status, major then minor version byte, server version 0, capability word", c17ResponseFields},
 			{"C17/request-layout", "handshakeRequest reads u8,u8,u16,u16 little-endian into major, minor, version, extAuth", c17RequestLayout},
 		},
 	})
@@ -262,7 +263,7 @@ func c17Echo(c *Ctx) {
 							why = "advertised caps are not matchAuth's result"
 						} else if ea, ok := strip(arg(ma, 0)).(*ssa.Extract); !ok || ea.Tuple != maj.Tuple || ea.Index != 3 {
 							why = "matchAuth is not given the client bits (result 3) of the same handshakeRequest call"
-						} else if pk, ok := strip(arg(maj.Tuple.(*ssa.Call), 0)).(*ssa.Extract); !ok || pk.Tuple != ssa.Value(reads[0].(*ssa.Call)) || pk.Index != 2 {
+						} else if pk, ok := strip(c.upOne(arg(maj.Tuple.(*ssa.Call), 0))).(*ssa.Extract); !ok || pk.Tuple != ssa.Value(reads[0].(*ssa.Call)) || pk.Index != 2 {
 							why = "handshakeRequest does not decode this iteration's packet"
 						} else if chk := matchAuthChecked(p); !chk {
 							why = "success response on a path where matchAuth's error was not tested nil"
